@@ -168,3 +168,32 @@ func init() {
 		},
 	})
 }
+
+func init() {
+	register(&propSpec{
+		id: "C09",
+		explanation: "Structural necessary conditions of 'when the client's transport fails, every call fails promptly and none hangs': on failure the sticky error is stored and every registered channel closed and deleted in one critical section (C09.1); every insertion into the registry happens in a critical section that read the sticky error and has fact rErr==nil (C09.2); the read loop's exit is always published with a non-nil error (C09.3); every receive from a per-call queue tests for closure and the closed branch returns a provably non-nil error (C09.4); the stream read loop assigns a provably non-nil terminal error and releases the ready latch on every non-success exit (C09.5); the unary wait and the stream reader are escapable by the caller's context (C09.6). Promptness in time is NOT decided.",
+		ruleText:    "obligation = one store/close/delete, insertion, return or receive; non-trivial = needed locksets, facts, provenance or a path search",
+		assumptions: baseAssumptions,
+		run: func(c *Ctx, thorough bool) {
+			c.guard("C09.1", func() { ruleFailurePublication(c, "C09.1") })
+			c.guard("C09.2", func() { ruleCheckThenRegister(c, "C09.2") })
+			c.guard("C09.3", func() { ruleReadLoopExitPublished(c, "C09.3") })
+			c.guard("C09.4", func() { ruleClosedChannelMeansError(c, "C09.4") })
+			c.guard("C09.6", func() { ruleWaitingEscapable(c, "C09.6") })
+		},
+	})
+	register(&propSpec{
+		id: "C10",
+		explanation: "Structural necessary conditions of 'server connections end cleanly': the read loop's Read is handed the connection context, which descends from the server context Stop cancels, is cancelled by the writer on a write error and by serve's deferred cancel (C10.1); serve returns on read error and every blocking step of its loop is escapable by the connection context (C10.2); Serve awaits every stream: cancel-then-await per registry entry, loop exit only when the registry is empty, signal+delete in one critical section (C10.3); every handler invocation's context descends from the connection context or has its cancel function in the swept registry (C10.4); every blocking primitive in the writer, the workers and the per-stream goroutine is escapable by such a context (C10.5). That user handlers observe their context is NOT decided.",
+		ruleText:    "obligation = one context ancestry, blocking primitive, path or critical section; non-trivial = needed context ancestry, locksets, facts or a path search",
+		assumptions: baseAssumptions,
+		run: func(c *Ctx, thorough bool) {
+			c.guard("C10.1", func() { ruleServeCancellable(c, "C10.1") })
+			c.guard("C10.2", func() { ruleServeReturns(c, "C10.2") })
+			c.guard("C10.3", func() { ruleStreamsCancelledAndAwaited(c, "C10.3") })
+			c.guard("C10.4", func() { ruleHandlerCtxCancelledByConnEnd(c, "C10.4") })
+			c.guard("C10.5", func() { ruleServerGoroutinesCanExit(c, "C10.5") })
+		},
+	})
+}
